@@ -47,9 +47,18 @@ def gen_script(rng):
             sp.names.setdefault(nm, i)
     if n > 1 and rng.random() < 0.4:
         i = rng.randrange(1, n)
+        owned = [nm for nm, j in sp.names.items() if j == i]
         steps.append("send $%d a 6372617368" % i)
         expect.append("ok")
         sp.deliver(i, ("R", ("a", b"crash")))
+        # a name whose owner has ended is free: it is given to a process that is alive, and inbound messages for the
+        # name go there from now on
+        for nm in owned:
+            if rng.random() < 0.8:
+                j = rng.choice([k for k in range(n) if sp.live.get(k)])
+                steps.append("register %s $%d" % (hx(nm), j))
+                expect.append("ok")
+                sp.names[nm] = j
     connected = True
     nframes = 0
     calls = []
